@@ -42,11 +42,13 @@ func partialEnv() real.EnvSpec {
 	}}
 }
 
-func partialGrammar() *gen.Grammar {
+func partialGrammar(full bool) *gen.Grammar {
 	g := gen.NewGrammar()
 	N, S, B := gen.Num, gen.Str, gen.Bool
-	g.Atom(N, gen.NumT(0), gen.NumT(1), gen.NumT(2), gen.NumT(0.5), gen.Neg(1), gen.Neg(0.5), gen.NumT(3),
-		gen.NumT(gen.Pow53), gen.NumT(gen.Pow63), gen.NumT(1e300), gen.VarT("nan"), gen.VarT("inf"), gen.VarT("ninf"))
+	g.Atom(N, gen.NumT(0), gen.NumT(1), gen.NumT(2), gen.NumT(0.5), gen.Neg(1), gen.VarT("nan"))
+	if full {
+		g.Atom(N, gen.Neg(0.5), gen.NumT(3), gen.NumT(gen.Pow53), gen.NumT(gen.Pow63), gen.NumT(1e300), gen.VarT("inf"), gen.VarT("ninf"))
+	}
 	g.Atom(S, gen.StrT("a"), gen.StrT("zz"), gen.StrT("("))
 	g.Atom(B, gen.BoolT(true), gen.BoolT(false))
 	g.Atom(tyLNum, gen.VarT("l"), gen.VarT("le"), gen.ListT(gen.NumT(5), gen.NumT(6), gen.NumT(7)))
@@ -122,13 +124,14 @@ func (c02) Generate(tier string, yield func(*engine.Case) bool) {
 			ok = false
 		}
 	}
-	g, env := partialGrammar(), partialEnv()
+	g, env := partialGrammar(true), partialEnv()
 	for _, ty := range []*gen.Ty{gen.Num, gen.Str, gen.Bool} {
 		if tier == "thorough" {
 			g.Each(ty, 2, func(t *gen.Term) bool { emit(progCase("partial", t, env, "P")); return ok })
 		} else {
+			// every boundary value in every position at depth 1; compositions over the 6 core atoms
 			g.Each(ty, 1, func(t *gen.Term) bool { emit(progCase("partial", t, env, "P")); return ok })
-			g.EachOneDeep(ty, func(t *gen.Term) bool { emit(progCase("partial1", t, env, "P")); return ok })
+			partialGrammar(false).EachOneDeep(ty, func(t *gen.Term) bool { emit(progCase("partial1", t, env, "P")); return ok })
 		}
 	}
 	for _, c := range sizePrograms(tier) {
